@@ -47,22 +47,28 @@ FLOAT_CATALOGUE = ["1.5", "1.5 ", " 1.5", "1.5\\n", "\\t2", "NaN", "nan", "inf",
 def float_harness(d, hname, sabotage=False):
     ty = d.ty
     n = len(FLOAT_CATALOGUE)
+    inner = ["let text: &str = cat[j];",
+             "unsafe { P_CALLS = 0; OTHER_CALLS = 0; }",
+             "let r = <N as FromStr>::from_str(text);",
+             # under verification the inner parser is a nondeterministic stub that records the text it was handed;
+             # natively (replay) it is the real core parser
+             "let parsed: Result<%s, ()> = if is_symbolic() {\n                assert!(unsafe { OTHER_CALLS } == 0, \"the text was parsed as a different float type than the inner type\");\n                assert!(unsafe { P_CALLS } == 1 && unsafe { L_PTR } == text.as_ptr() as usize && unsafe { L_LEN } == text.len(), \"the inner parser was not handed exactly the input text (once)\");\n                if unsafe { P_OK } { Ok(unsafe { P_VAL }) } else { Err(()) }\n            } else { text.parse::<%s>().map_err(|_| ()) };" % (ty, ty)]
+    if not sabotage:
+        inner.append("kani::cover!(r.is_ok()); kani::cover!(matches!(r, Err(NParseError::Parse(_))));")
+        if d.has_validation():
+            inner.append("kani::cover!(matches!(r, Err(NParseError::Validate(_))));")
+        if "finite" in d.validators:
+            inner.append("if let Ok(v) = &r { let g: %s = **v; assert!(g.is_finite(), \"from_str yielded a non-finite value for a `finite` type\"); }" % ty)
+    inner.append(result_match(d, "parsed", "r", sabotage))
     b = [d.setup(),
-         "unsafe { P_OK = kani::any(); P_VAL = kani::any(); P_CALLS = 0; OTHER_CALLS = 0; }",
+         "unsafe { P_OK = kani::any(); P_VAL = kani::any(); }",
          "let cat: [&'static str; %d] = [%s];" % (n, ", ".join('"%s"' % s for s in FLOAT_CATALOGUE)),
          "let i: usize = kani::any(); kani::assume(i < %d);" % n,
-         "let text: &str = cat[i];",
-         "let r = <N as FromStr>::from_str(text);",
-         # under verification the inner parser is a nondeterministic stub that records the text it was handed;
-         # natively (replay) it is the real core parser
-         "let parsed: Result<%s, ()> = if is_symbolic() {\n            assert!(unsafe { OTHER_CALLS } == 0, \"the text was parsed as a different float type than the inner type\");\n            assert!(unsafe { P_CALLS } == 1 && unsafe { L_PTR } == text.as_ptr() as usize && unsafe { L_LEN } == text.len(), \"the inner parser was not handed exactly the input text (once)\");\n            if unsafe { P_OK } { Ok(unsafe { P_VAL }) } else { Err(()) }\n        } else { text.parse::<%s>().map_err(|_| ()) };" % (ty, ty)]
-    if not sabotage:
-        b.append("kani::cover!(r.is_ok()); kani::cover!(matches!(r, Err(NParseError::Parse(_))));")
-        if d.has_validation():
-            b.append("kani::cover!(matches!(r, Err(NParseError::Validate(_))));")
-        if "finite" in d.validators:
-            b.append("if let Ok(v) = &r { let g: %s = **v; assert!(g.is_finite(), \"from_str yielded a non-finite value for a `finite` type\"); }" % ty)
-    b.append(result_match(d, "parsed", "r", sabotage))
+         # symbolic run: exactly the text cat[i]; native replay: the whole (finite, concrete) catalogue, so that a violation
+         # that only some texts expose natively (e.g. double rounding) is confirmed whichever index the solver reported
+         "let (from, to) = if is_symbolic() { (i, i + 1) } else { (0, %d) };" % n,
+         "let mut j = from;",
+         "while j < to {\n            %s\n            j += 1;\n        }" % "\n            ".join(inner)]
     other = "f64" if ty == "f32" else "f32"
     return ("    #[kani::proof]\n    #[kani::unwind(8)]\n    #[kani::stub(<%s as core::str::FromStr>::from_str, stub_parse)]\n    #[kani::stub(<%s as core::str::FromStr>::from_str, stub_parse_other)]\n    #[kani::stub(crate::support::is_symbolic, crate::support::is_symbolic_true)]\n    pub fn %s() {\n        %s\n    }\n"
             % (ty, other, hname, "\n        ".join(b)))
